@@ -179,7 +179,7 @@ impl Indexable for ast::Def {
     fn index(&self, ctx: &mut IndexCtx) -> Option<Self::Output> {
         let defset_id = ctx.scopes.current_defset_id();
 
-        let def_id = match self.name() {
+        let def_id = match self.name().filter(|it| !is_named_after_defm(it)) {
             Some(name_value) => {
                 let (name, define_loc) = index_name_value(name_value, ctx)?;
                 let def = Record::new(name, RecordKind::Def, define_loc);
@@ -209,6 +209,14 @@ impl Indexable for ast::Def {
     }
 }
 
+/// `def NAME#"_x"` / `defm NAME : …` inside a multiclass: the record is named after the defm that
+/// instantiates the multiclass. It has no name of its own - and must not be entered under the
+/// name `NAME`, which would turn every later `NAME` into a reference to it.
+fn is_named_after_defm(value: &ast::Value) -> bool {
+    let first = value.inner_values().next().and_then(|it| it.simple_value());
+    matches!(first, Some(ast::SimpleValue::Identifier(id)) if id.value().is_some_and(|it| it == "NAME"))
+}
+
 fn index_name_value(value: ast::Value, ctx: &mut IndexCtx) -> Option<(EcoString, FileRange)> {
     let name = value.inner_values().next()?;
     match name.simple_value()? {
@@ -222,7 +230,7 @@ impl Indexable for ast::Defm {
     fn index(&self, ctx: &mut IndexCtx) -> Option<Self::Output> {
         let defset_id = ctx.scopes.current_defset_id();
 
-        let defm_id = match self.name() {
+        let defm_id = match self.name().filter(|it| !is_named_after_defm(it)) {
             Some(name_value) => {
                 let (name, define_loc) = index_name_value(name_value, ctx)?;
                 let defm = Defm::new(name, define_loc);
